@@ -52,7 +52,11 @@ fn ipm2(sets: Vec<IpfixSet>) -> Vec<u8> {
 }
 
 /// the per-instance action alphabet; `layouts` = 2 (A,B) or 3 (A,B,C)
-pub fn alphabet(inst: usize, allowed: &[u16], ids: &[u16], layouts: usize) -> Vec<ActionSpec> {
+pub const EXTRAS_LABEL: &str = "+ template ids equal to template-set ids";
+
+/// `extras`: also the template records whose template id equals a template-set id (they multiply the state space by
+/// 81 per instance, so only the configuration labelled EXTRAS_LABEL carries them)
+pub fn alphabet(inst: usize, allowed: &[u16], ids: &[u16], layouts: usize, extras: bool) -> Vec<ActionSpec> {
     let mut v = vec![];
     let mut add = |name: String, bytes: Vec<u8>, parts: Option<Vec<Vec<u8>>>, proto: u16, defines: bool| {
         let inert = !defines || (proto != 0 && !allowed.contains(&proto));
@@ -178,6 +182,16 @@ pub fn alphabet(inst: usize, allowed: &[u16], ids: &[u16], layouts: usize) -> Ve
         let full = ipm(vec![ip_t(id0, 2), ip_t(id1, 0)]);
         add("IPFIX-message-truncated-inside-its-second-template-set".into(), full[..full.len() - 3].to_vec(), None, 10, false);
     }
+    // template records whose TEMPLATE id is the id of the protocol's own template / options-template sets (IPFIX 2, 3;
+    // V9 0, 1): both decoders cache them; a set with that id is a template set all the same
+    for tid in if extras { vec![2u16, 3] } else { vec![] } {
+        add(format!("T(IPFIX, template id {} = a template-set id, A)", tid), ipm(vec![ip_t(tid, 0)]), None, 10, true);
+        add(format!("OT(IPFIX, template id {} = a template-set id)", tid), ipm(vec![ip_ot(tid)]), None, 10, true);
+    }
+    for tid in if extras { vec![0u16, 1] } else { vec![] } {
+        add(format!("T(V9, template id {} = a template-flowset id, A)", tid), v9p(vec![v9_t(tid, 0)]), None, 9, true);
+        add(format!("OT(V9, template id {} = a template-flowset id)", tid), v9p(vec![v9_ot(tid)]), None, 9, true);
+    }
     // sets / flowsets with an unused or reserved id (IPFIX 0, 1, 4..=255; V9 2..=255) whose body happens to be a
     // well-formed template record: they are not template sets, define nothing, and - no template being cached under
     // such an id - decode to nothing
@@ -215,7 +229,7 @@ pub struct Run {
 pub fn run_config(label: &str, ninst: usize, allowed: Vec<Vec<u16>>, ids: &[u16], layouts: usize, max_depth: usize, probe: Option<Box<dyn Fn(&HistModel, &St) -> Vec<Issue> + Send + Sync>>) -> Run {
     let mut actions = vec![];
     for i in 0..ninst {
-        actions.extend(alphabet(i, &allowed[i], ids, layouts));
+        actions.extend(alphabet(i, &allowed[i], ids, layouts, label.contains(EXTRAS_LABEL)));
     }
     let mut m = HistModel::new(ninst, allowed, actions, max_depth);
     m.probe = probe;
@@ -399,6 +413,7 @@ pub fn configs(tier: &str, probe: impl Fn() -> Option<Box<dyn Fn(&HistModel, &St
     runs.push(run_config("2 instances (all / {5,7,10}), ids {256,257}, layouts A,B", 2, vec![vec![5, 7, 9, 10], vec![5, 7, 10]], &[256, 257], 2, 40, probe()));
     // both instances decode both protocols: the same id with different layouts (and record lengths) lives in both
     runs.push(run_config("2 instances (all / {9,10}), id {256}, layouts A,B,C", 2, vec![vec![5, 7, 9, 10], vec![9, 10]], &[256], 3, 40, probe()));
+    runs.push(run_config(&format!("1 instance, id {{256}}, layouts A,B {}", EXTRAS_LABEL), 1, vec![vec![5, 7, 9, 10]], &[256], 2, 40, probe()));
     if tier == "thorough" {
         runs.push(run_config("1 instance, ids {256,257,300}, layouts A,B,C", 1, vec![vec![5, 7, 9, 10]], &[256, 257, 300], 3, 40, probe()));
         runs.push(run_config("2 instances (all / {9}), ids {256,257}, layouts A,B", 2, vec![vec![5, 7, 9, 10], vec![9]], &[256, 257], 2, 40, probe()));
@@ -507,6 +522,7 @@ pub fn replay(v: &Value) -> i32 {
         ("1 instance, ids {256,257,300}, layouts A,B,C", 1, vec![vec![5, 7, 9, 10]], vec![256, 257, 300], 3),
         ("2 instances (all / {9}), ids {256,257}, layouts A,B", 2, vec![vec![5, 7, 9, 10], vec![9]], vec![256, 257], 2),
         ("1 instance, ids {256,257}, layouts A,B,C", 1, vec![vec![5, 7, 9, 10]], vec![256, 257], 3),
+        ("1 instance, id {256}, layouts A,B + template ids equal to template-set ids", 1, vec![vec![5, 7, 9, 10]], vec![256], 2),
         ("2 instances (all / {9,10}), id {256}, layouts A,B,C", 2, vec![vec![5, 7, 9, 10], vec![9, 10]], vec![256], 3),
         ("2 instances (all / all), ids {256,257}, layouts A,B, no history replay", 2, vec![vec![5, 7, 9, 10], vec![5, 7, 9, 10]], vec![256, 257], 2),
         ("2 instances (all / {5,7,10}), ids {256,257,300}, layouts A,B, no history replay", 2, vec![vec![5, 7, 9, 10], vec![5, 7, 10]], vec![256, 257, 300], 2),
@@ -521,7 +537,7 @@ pub fn replay(v: &Value) -> i32 {
     };
     let mut actions = vec![];
     for i in 0..ninst {
-        actions.extend(alphabet(i, &allowed[i], &ids, layouts));
+        actions.extend(alphabet(i, &allowed[i], &ids, layouts, label.contains(EXTRAS_LABEL)));
     }
     let mut m = HistModel::new(ninst, allowed, actions, 64);
     if prop == "C07" {
@@ -563,7 +579,7 @@ pub fn unmerged_check(depth: usize) -> (Vec<Issue>, u64) {
     let allowed = vec![vec![5u16, 7, 9, 10], vec![9u16, 10]];
     let mut actions = vec![];
     for i in 0..2 {
-        actions.extend(alphabet(i, &allowed[i], &[256], 3));
+        actions.extend(alphabet(i, &allowed[i], &[256], 3, false));
     }
     let (mut issues, mut total) = unmerged_over(allowed, actions, depth);
     // alphabet 2: one instance, two ids plus an id nobody defines, reduced to definitions and data (state kept in the
